@@ -21,7 +21,25 @@ def main():
         print("setup: imports ok (cache build skipped)")
         return 0
     n, ok = corpus.build_full_cache(workers=os.cpu_count() or 4)
-    print(f"setup: parse-tree cache holds {n} behaviour parts ({ok} parse) in {time.time() - t0:.0f}s")
+    # catalogue / generated workload texts of the engines (a few hundred short behaviours)
+    sys.path.insert(0, HERE)
+    extra = 0
+    try:
+        import c08
+        import c14
+        import c18
+        for cls in (c14.EngineC14, c08.EngineC08):
+            e = cls("quick")
+            e._load()
+            e.tc.get(e.extra_texts, workers=os.cpu_count() or 4)
+            extra += len(e.extra_texts)
+        e = c18.EngineP("quick")
+        e._load()
+        e.tc.get(e.short_texts, workers=os.cpu_count() or 4)
+        extra += len(e.short_texts)
+    except Exception as ex:  # noqa: BLE001 - the checks parse what is missing on their own
+        print("setup: workload texts not pre-parsed:", repr(ex)[:200])
+    print(f"setup: parse-tree cache holds {n} behaviour parts ({ok} parse) + {extra} workload texts in {time.time() - t0:.0f}s")
     return 0
 
 
